@@ -123,7 +123,11 @@ def check(ctx):
             v = float(ast.literal_eval(d))
             ctx.ob('R4', fg, f'default max_energy_threshold={norm_text(d)}', v < big, 'finite default threshold' if v < big else 'default threshold is not below the sanitiser value')
         except Exception:
-            ctx.ob('R4', fg, f'default max_energy_threshold={norm_text(d)}', None, 'default not a literal')
+            txt = norm_text(d).replace(' ', '')
+            inf = txt in ("float('inf')", 'np.inf', 'math.inf', 'float("inf")', 'numpy.inf', 'inf')
+            ctx.ob('R4', fg, f'default max_energy_threshold={norm_text(d)}', False if inf else None,
+                   'the default threshold is infinite: never-visited voxels (finite, huge substituted energy) pass `F < threshold` and enter the graph'
+                   if inf else 'default not a literal')
     for f in ctx.p.functions.values():
         for n in ast.walk(f.node):
             if isinstance(n, ast.Call):
